@@ -146,7 +146,7 @@ fn main() {
             sink.finish(props::c01::RULE, serde_json::json!({}));
         }
         "C04" => {
-            let mut sink = cases::CaseSink::new("C04", "Model.Pipe Corr.C01 Corr.C04", &opts.out, 3);
+            let mut sink = cases::CaseSink::new("C04", "Model.Pipe Model.Net Corr.C01 Corr.C04", &opts.out, 3);
             // known finding F13: the engineered two-host join that deadlocks (and, in the thorough
             // tier, its control); time unit 250 ms: user sleeps end at 12.5 s
             props::muxjoin::emit(&mut sink, 20, true, 250, opts.seed);
